@@ -19,6 +19,13 @@ type BT = BTreeMap<i32, i32>;
 
 thread_local! {
     static CALLS: RefCell<Vec<(&'static str, i32)>> = RefCell::new(Vec::new());
+    /// C18 drives incr_merge through this module for the order of the merge only: it keeps the
+    /// operator observed throughout, so that its verdict does not depend on how the engine treats
+    /// writes to unobserved inputs (that is C01's and C15's business)
+    static KEEP_OBSERVED: std::cell::Cell<bool> = std::cell::Cell::new(false);
+}
+pub fn keep_observed(on: bool) {
+    KEEP_OBSERVED.with(|k| k.set(on));
 }
 fn call(role: &'static str, key: i32) {
     CALLS.with(|c| c.borrow_mut().push((role, key)));
@@ -397,7 +404,7 @@ fn drive(
                 }
                 trace.push("observe".into());
             }
-            (true, 1) => {
+            (true, 1) if !KEEP_OBSERVED.with(|k| k.get()) => {
                 reader = None;
                 was_unobserved = true;
                 trace.push("unobserve".into());
@@ -526,6 +533,14 @@ fn drive(
     }
 }
 
+thread_local! {
+    /// C18 (decoder 2): force the operator to incr_merge whatever the second byte says
+    static FORCE_MERGE: std::cell::Cell<bool> = std::cell::Cell::new(false);
+}
+pub fn force_merge(on: bool) {
+    FORCE_MERGE.with(|k| k.set(on));
+}
+
 fn pick_type_and_op(ch: &mut Choices) -> (usize, Op) {
     let ty = ch.choose(3);
     let mut ops = vec![
@@ -550,6 +565,9 @@ fn pick_type_and_op(ch: &mut Choices) -> (usize, Op) {
         ops.push(Op::PartitionMapi);
     }
     let op = ops[ch.choose(ops.len())];
+    if FORCE_MERGE.with(|k| k.get()) && ty != 1 {
+        return (ty, Op::Merge);
+    }
     (ty, op)
 }
 
